@@ -56,18 +56,30 @@ var deadLabelRe = regexp.MustCompile("have the `([^`]+)` label")
 // c12Cause describes, from engine observations, the situation in which a refuted claim was made: which modifier the
 // owning operation has, whether the label the claim talks about is in the modifier's list and which operand's series
 // actually carry it. It identifies a root cause far better than pint's message text.
-func c12Cause(expr, class string, d utils.Source, owner *promParser.BinaryExpr, db *promfake.DB) string {
+func c12Cause(expr, class string, d utils.Source, owner *promParser.BinaryExpr, cands []*promParser.BinaryExpr, db *promfake.DB) string {
 	if owner == nil {
 		return "no-owner"
 	}
 	switch class {
 	case "or-rhs-never-used":
 		if owner.VectorMatching != nil && owner.VectorMatching.On && len(owner.VectorMatching.MatchingLabels) == 0 {
-			return "or-with-on()"
+			// what makes pint believe the left side always returns
+			return "or-with-on():left-side-shape=" + astShape(owner.LHS, 1)
 		}
 		return "or-left-side-always-returns"
 	case "static-comparison":
-		if owner.ReturnBool {
+		hasBool := owner.ReturnBool
+		for _, b := range cands {
+			// a comparison around or inside the flagged one
+			hasBool = hasBool || b.ReturnBool
+		}
+		promParser.Inspect(owner, func(n promParser.Node, _ []promParser.Node) error {
+			if b, ok := n.(*promParser.BinaryExpr); ok && b.ReturnBool {
+				hasBool = true
+			}
+			return nil
+		})
+		if hasBool {
 			return "bool-modifier"
 		}
 		cause := "constant-operands"
@@ -83,6 +95,9 @@ func c12Cause(expr, class string, d utils.Source, owner *promParser.BinaryExpr, 
 			})
 		}
 		return cause
+	}
+	if class == "unless-always-suppressed" {
+		return "rhs-shape=" + astShape(owner.RHS, 2)
 	}
 	vm := owner.VectorMatching
 	mod := "none"
@@ -129,7 +144,125 @@ func c12Cause(expr, class string, d utils.Source, owner *promParser.BinaryExpr, 
 	if owner.Op.IsSetOperator() {
 		opClass = owner.Op.String()
 	}
-	return fmt.Sprintf("%s:%s:label-in-list=%v:flagged-side-has-label=%s:other-side-has-label=%s", mod, opClass, inList, has(flagged), has(other))
+	cause := fmt.Sprintf("%s:%s:label-in-list=%v:flagged-side-has-label=%s:other-side-has-label=%s", mod, opClass, inList, has(flagged), has(other))
+	union := false
+	promParser.Inspect(other, func(n promParser.Node, _ []promParser.Node) error {
+		if b, ok := n.(*promParser.BinaryExpr); ok && b.Op == promParser.LOR {
+			union = true
+		}
+		return nil
+	})
+	if union {
+		// the verdict is taken per branch of the union and attached to the flagged side as a whole
+		return "other-side-is-union"
+	}
+	if vm.On && has(flagged) == "no" && has(other) == "no" {
+		// neither side carries L: what makes pint believe the other side can?
+		belief := ""
+		promParser.Inspect(other, func(n promParser.Node, _ []promParser.Node) error {
+			b, ok := n.(*promParser.BinaryExpr)
+			if !ok || b.VectorMatching == nil {
+				return nil
+			}
+			switch {
+			case b.VectorMatching.On && slices.Contains(b.VectorMatching.MatchingLabels, label):
+				// an inner operation with on(L): pint adds L to what its result can carry
+				belief = "other-side-has-inner-on(L)"
+			case slices.Contains(b.VectorMatching.Include, label) && belief == "":
+				// an inner group_left(L)/group_right(L): L is copied from a side that does not have it
+				belief = "other-side-has-inner-group-modifier(L)"
+			}
+			return nil
+		})
+		if belief != "" {
+			return "on:" + belief
+		}
+	}
+	if !vm.On {
+		// without on() pint relies on the labels it believes the other side is guaranteed to carry: the shape of
+		// that side tells apart the ways in which that belief goes wrong
+		cause += ":other-side-shape=" + astShape(other, 3)
+	}
+	return cause
+}
+
+// astShape: the outer node kinds of an expression (the side pint believes carries the label), e.g. fn>agg>sel
+func astShape(e promParser.Expr, depth int) string {
+	if depth == 0 {
+		return "."
+	}
+	switch n := e.(type) {
+	case *promParser.ParenExpr:
+		return astShape(n.Expr, depth)
+	case *promParser.Call:
+		for _, a := range n.Args {
+			if a.Type() == promParser.ValueTypeVector || a.Type() == promParser.ValueTypeMatrix {
+				return "fn>" + astShape(a, depth-1)
+			}
+		}
+		return "fn"
+	case *promParser.AggregateExpr:
+		k := "agg"
+		switch {
+		case n.Without:
+			k = "agg-without"
+		case len(n.Grouping) > 0:
+			k = "agg-by"
+		}
+		return k + ">" + astShape(n.Expr, depth-1)
+	case *promParser.BinaryExpr:
+		return "bin(" + n.Op.String() + ")"
+	case *promParser.VectorSelector:
+		return "sel"
+	case *promParser.MatrixSelector:
+		return "range"
+	case *promParser.SubqueryExpr:
+		return "subq>" + astShape(n.Expr, depth-1)
+	case *promParser.UnaryExpr:
+		return "neg>" + astShape(n.Expr, depth-1)
+	case *promParser.NumberLiteral:
+		return "num"
+	}
+	return "other"
+}
+
+// unionVariants: when side (an operand of op) contains a union, pint takes its verdict per branch of the union; return
+// the text of op with the outermost union inside side replaced by each of its branches in turn.
+func unionVariants(expr string, op *promParser.BinaryExpr, side promParser.Expr) (out []string) {
+	var union *promParser.BinaryExpr
+	promParser.Inspect(side, func(n promParser.Node, _ []promParser.Node) error {
+		if b, ok := n.(*promParser.BinaryExpr); ok && b.Op == promParser.LOR && union == nil {
+			union = b
+		}
+		return nil
+	})
+	if union == nil {
+		return nil
+	}
+	var branches []promParser.Expr
+	var flatten func(e promParser.Expr)
+	flatten = func(e promParser.Expr) {
+		for {
+			p, ok := e.(*promParser.ParenExpr)
+			if !ok {
+				break
+			}
+			e = p.Expr
+		}
+		if b, ok := e.(*promParser.BinaryExpr); ok && b.Op == promParser.LOR {
+			flatten(b.LHS)
+			flatten(b.RHS)
+			return
+		}
+		branches = append(branches, e)
+	}
+	flatten(union)
+	opr, ur := op.PositionRange(), union.PositionRange()
+	for _, br := range branches {
+		r := br.PositionRange()
+		out = append(out, expr[opr.Start:ur.Start]+"("+expr[r.Start:r.End]+")"+expr[ur.End:opr.End])
+	}
+	return out
 }
 
 type c12Outcome struct {
@@ -173,6 +306,24 @@ func c12Check(cs c12Case) (out c12Outcome) {
 	seen := map[string]bool{}
 	for _, d := range dead {
 		class := deadClass(d.IsDeadReason)
+		if class == "other" && d.IsDeadReason == "" {
+			// an enclosing arithmetic operation with a number wiped the reason (calculateStaticReturn passes the flag
+			// on without it): the claim is the one made inside
+			for _, b := range bins {
+				rr := b.RHS.PositionRange()
+				if b.Op == promParser.LOR && rr.Start <= d.Position.Start && rr.End >= d.Position.End {
+					class = "or-rhs-never-used"
+				}
+			}
+			if class == "other" {
+				for _, b := range bins {
+					pr := b.PositionRange()
+					if b.Op.IsComparisonOperator() && ((pr.Start <= d.Position.Start && pr.End >= d.Position.End) || (pr.Start >= d.Position.Start && pr.End <= d.Position.End)) {
+						class = "static-comparison"
+					}
+				}
+			}
+		}
 		id := fmt.Sprintf("%s@%d-%d", class, d.Position.Start, d.Position.End)
 		if seen[id] {
 			continue
@@ -224,7 +375,8 @@ func c12Check(cs c12Case) (out c12Outcome) {
 			case "static-comparison":
 				ok = b.Op.IsComparisonOperator()
 			case "or-rhs-never-used":
-				ok = b.Op == promParser.LOR
+				rr := b.RHS.PositionRange()
+				ok = b.Op == promParser.LOR && rr.Start <= d.Position.Start && rr.End >= d.Position.End
 			case "join-cannot-match":
 				// the claim names a label and (for on) the modifier list it comes from
 				if ok && claimOn {
@@ -235,6 +387,14 @@ func c12Check(cs c12Case) (out c12Outcome) {
 				// (for `or` pint computes the verdict but never attaches it, so an `or` is never the owner)
 				if b.Op == promParser.LOR {
 					ok = false
+				}
+				// the claim names the side of the operation it is about
+				if ok {
+					side := b.RHS.PositionRange()
+					if strings.HasPrefix(d.IsDeadReason, "The left hand side") {
+						side = b.LHS.PositionRange()
+					}
+					ok = side.Start <= d.Position.Start && side.End >= d.Position.End
 				}
 			}
 			if !ok {
@@ -273,6 +433,25 @@ func c12Check(cs c12Case) (out c12Outcome) {
 				}
 			}
 		}
+		if class == "unless-always-suppressed" {
+			// the flagged source is the left side of an `unless on()`; functions around the operation widen the
+			// position pint keeps for it, so the operation may enclose the position or lie inside it
+			cands, owner = nil, nil
+			for _, b := range bins {
+				if b.Op != promParser.LUNLESS || b.VectorMatching == nil || !b.VectorMatching.On || len(b.VectorMatching.MatchingLabels) > 0 {
+					continue
+				}
+				pr := b.PositionRange()
+				encl := pr.Start <= d.Position.Start && pr.End >= d.Position.End
+				inside := pr.Start >= d.Position.Start && pr.End <= d.Position.End
+				if encl || inside {
+					cands = append(cands, b)
+					if owner == nil {
+						owner = b
+					}
+				}
+			}
+		}
 		for di, dbs := range cs.DBs {
 			db := &promfake.DB{Series: dbs}
 			held, inconclusive := false, false
@@ -286,36 +465,48 @@ func c12Check(cs c12Case) (out c12Outcome) {
 				if class == "or-rhs-never-used" && (b.Op != promParser.LOR || !inRHS) {
 					continue
 				}
-				vec, isScalar, e := promfake.Instant(theEngine(), db, sub, engT)
-				if e != nil {
-					out.evalErr++
-					inconclusive = true
-					continue
+				// evaluate the operation (and, when the flagged side is a union, the operation with the union replaced
+				// by each of its branches: the claim is then about one branch only)
+				subs := []string{sub}
+				if class == "join-cannot-match" {
+					side := b.LHS
+					if inRHS {
+						side = b.RHS
+					}
+					subs = append(subs, unionVariants(cs.Expr, b, side)...)
 				}
-				if isScalar {
-					inconclusive = true // a scalar is not a series
-					continue
-				}
-				if needEq {
-					// the flagged right side contributes nothing iff the operation returns what its left side returns
-					lhsExpr := cs.Expr[b.LHS.PositionRange().Start:b.LHS.PositionRange().End]
-					left, sc2, e2 := promfake.Instant(theEngine(), db, lhsExpr, engT)
-					if e2 != nil || sc2 {
+				for vi, sub := range subs {
+					vec, isScalar, e := promfake.Instant(theEngine(), db, sub, engT)
+					if e != nil {
+						out.evalErr++
 						inconclusive = true
 						continue
 					}
-					if vecKey(vec) == vecKey(left) {
-						held = true
-					} else if witness == "" {
-						witness = fmt.Sprintf("`%s` returns %d series but its left side alone %d", sub, len(vec), len(left))
+					if isScalar {
+						inconclusive = true // a scalar is not a series
+						continue
 					}
-					continue
-				}
-				trace = append(trace, fmt.Sprintf("%q=>%d", sub, len(vec)))
-				if len(vec) == 0 {
-					held = true
-				} else if witness == "" {
-					witness = fmt.Sprintf("`%s` returns %d series, e.g. %v", sub, len(vec), vec[0].Labels)
+					if needEq {
+						// the flagged right side contributes nothing iff the operation returns what its left side returns
+						lhsExpr := cs.Expr[b.LHS.PositionRange().Start:b.LHS.PositionRange().End]
+						left, sc2, e2 := promfake.Instant(theEngine(), db, lhsExpr, engT)
+						if e2 != nil || sc2 {
+							inconclusive = true
+							continue
+						}
+						if vecKey(vec) == vecKey(left) {
+							held = true
+						} else if witness == "" && vi == 0 {
+							witness = fmt.Sprintf("`%s` returns %d series but its left side alone %d", sub, len(vec), len(left))
+						}
+						continue
+					}
+					trace = append(trace, fmt.Sprintf("%q=>%d", sub, len(vec)))
+					if len(vec) == 0 {
+						held = true
+					} else if witness == "" && vi == 0 {
+						witness = fmt.Sprintf("`%s` returns %d series, e.g. %v", sub, len(vec), vec[0].Labels)
+					}
 				}
 			}
 			if held {
@@ -326,7 +517,7 @@ func c12Check(cs c12Case) (out c12Outcome) {
 				continue
 			}
 			out.viol = append(out.viol, core.Violation{
-				Sig:  fmt.Sprintf("dead-code-claim-refuted:%s:%s", class, c12Cause(cs.Expr, class, d, owner, db)),
+				Sig:  fmt.Sprintf("dead-code-claim-refuted:%s:%s", class, c12Cause(cs.Expr, class, d, owner, cands, db)),
 				What: fmt.Sprintf("pint marks part of %q dead (%s; source position %d-%d) but on database %d %s [evaluated: %s]", cs.Expr, d.IsDeadReason, d.Position.Start, d.Position.End, di, witness, strings.Join(trace, " ")),
 				Case: cs,
 			})
